@@ -5,6 +5,10 @@
 //!   pseudo-random spins, 3 yields at pseudo-random points.  All threads start together
 //!   behind a barrier.  The run only counts if it took less than 0.8 s (the whole burst must
 //!   fall into one refill second); otherwise it is repeated.
+//!   mode 4: FRESH-STREAM ROUNDS.  The same burst is repeated 60 times on one Server, every round from a
+//!   fresh /24 (a bucket that does not exist yet), the threads released by a spinning barrier so that their
+//!   FIRST requests - the ones that create the bucket - collide; every round must give the same counts
+//!   (reported once), otherwise the line is `bad round ...`.
 //! Output: `ok sent=<n> limited=<n>` (sent = responses with TC clear; limited = slipped +
 //! dropped), `err <RrlParamError>`, `timing` when no repetition was fast enough,
 //! `bad <..>` when a response was neither.
@@ -19,6 +23,92 @@ use std::time::{Duration, Instant};
 
 use quandary::server::{Server, Transport};
 
+const ROUNDS: usize = 60;
+
+fn rounds(rate: u32, window: u32, slip: usize, size: usize, kind: &str, edns: bool, bursts: &[usize], cat: &std::sync::Arc<Cat>) -> String {
+    let p = match params(rate, rate, rate, window, slip, size, 24, 56) {
+        Ok(p) => p,
+        Err(e) => return format!("err {e}"),
+    };
+    let mut server = Server::new(cat.clone());
+    server.set_rrl_params(Some(p));
+    let server = &server;
+    let q = query(kind, edns, 0x2828);
+    let q = &q;
+    let t = bursts.len();
+    let go = AtomicUsize::new(0); // number of the round the threads may run
+    let done = AtomicUsize::new(0); // threads that finished their burst (cumulative)
+    let (sent, slipped, dropped, bad) = (AtomicUsize::new(0), AtomicUsize::new(0), AtomicUsize::new(0), AtomicUsize::new(0));
+    let mut results: Vec<(usize, usize, usize, usize)> = Vec::new();
+    let mut slow = 0usize;
+    std::thread::scope(|sc| {
+        for (ti, b) in bursts.iter().enumerate() {
+            let (go, done, sent, slipped, dropped, bad) = (&go, &done, &sent, &slipped, &dropped, &bad);
+            let b = *b;
+            sc.spawn(move || {
+                let mut buf = vec![0u8; 4096];
+                for round in 1..=ROUNDS {
+                    // spin briefly, then yield: the shards of the suite run in parallel, so the machine is oversubscribed
+                    let mut spins = 0u32;
+                    while go.load(Ordering::Acquire) < round {
+                        spins += 1;
+                        if spins % 64 == 0 {
+                            std::thread::yield_now();
+                        } else {
+                            std::hint::spin_loop();
+                        }
+                    }
+                    let src = IpAddr::V4(Ipv4Addr::new(10, (round >> 8) as u8, (round & 255) as u8, (ti as u8) + 1));
+                    for _ in 0..b {
+                        let r = send(server, q, src, Transport::Udp, &mut buf);
+                        match classify(&r, &buf, edns).as_str() {
+                            "S" => sent.fetch_add(1, Ordering::Relaxed),
+                            "T" => slipped.fetch_add(1, Ordering::Relaxed),
+                            "-" => dropped.fetch_add(1, Ordering::Relaxed),
+                            _ => bad.fetch_add(1, Ordering::Relaxed),
+                        };
+                    }
+                    done.fetch_add(1, Ordering::AcqRel);
+                }
+            });
+        }
+        for round in 1..=ROUNDS {
+            let start = Instant::now();
+            go.store(round, Ordering::Release);
+            while done.load(Ordering::Acquire) < round * t {
+                std::thread::yield_now();
+            }
+            if start.elapsed() >= Duration::from_millis(800) {
+                slow += 1; // the burst may have straddled a refill second: not counted
+                results.push((usize::MAX, 0, 0, 0));
+            } else {
+                results.push((sent.load(Ordering::Relaxed), slipped.load(Ordering::Relaxed), dropped.load(Ordering::Relaxed), bad.load(Ordering::Relaxed)));
+            }
+            for a in [&sent, &slipped, &dropped, &bad] {
+                a.store(0, Ordering::Relaxed);
+            }
+        }
+    });
+    let counted: Vec<&(usize, usize, usize, usize)> = results.iter().filter(|r| r.0 != usize::MAX).collect();
+    if counted.len() < ROUNDS / 2 {
+        return "timing".to_string();
+    }
+    let first = *counted[0];
+    for (i, r) in counted.iter().enumerate() {
+        if r.3 != 0 {
+            return format!("bad round {i}: {} responses with TC set and records", r.3);
+        }
+        if slip == 0 && r.1 != 0 || slip == 1 && r.2 != 0 {
+            return format!("bad round {i}: slip={slip} slipped={} dropped={}", r.1, r.2);
+        }
+        if (r.0, r.1 + r.2) != (first.0, first.1 + first.2) {
+            return format!("bad round {i} of a fresh stream: sent={} limited={} but round 0: sent={} limited={}", r.0, r.1 + r.2, first.0, first.1 + first.2);
+        }
+    }
+    let _ = slow;
+    format!("ok sent={} limited={}", first.0, first.1 + first.2)
+}
+
 fn main() {
     let cat = catalog();
     run_lines(|f| {
@@ -30,6 +120,9 @@ fn main() {
         let mode = n(6);
         let seed = n(7);
         let bursts: Vec<usize> = f[8].split(',').map(|b| b.parse().unwrap()).collect();
+        if mode == 4 {
+            return rounds(rate, n(1) as u32, slip, n(3) as usize, kind, edns, &bursts, &cat);
+        }
         for _attempt in 0..12 {
             let p = match params(rate, rate, rate, n(1) as u32, slip, n(3) as usize, 24, 56) {
                 Ok(p) => p,
